@@ -1,6 +1,8 @@
 import Driver.Proto
 import LzmaVerif.Model.Lzip
 import LzmaVerif.Model.XzInt
+import LzmaVerif.Model.LzmaStream
+import LzmaVerif.Model.Lzma2
 /-! Request handlers: each maps a parsed request to the canonical answer line. -/
 namespace Driver
 open LzmaVerif
@@ -15,8 +17,75 @@ def showPRes : XzInt.PRes → String
   | .incomplete => "err incomplete"
   | .tooLong => "err toolong"
 
+open Lzma in
+def showDecOut (o : DecOut) (reenc : Option Bool) : String :=
+  match o with
+  | .ok out consumed _ =>
+    let r := match reenc with | some true => "1" | some false => "0" | none => "-"
+    s!"ok {out.size} {fnvArr out} {consumed} {r}"
+  | .err e => s!"err {e.name}"
+  | .capped => "capped"
+
+open Lzma in
+/-- `lzma.dec fmt=raw|alone lc= lp= pb= dict= size=<n|-> preset=<hex> in=<hex> cap=<n> reenc=<0|1>` -/
+def handleLzmaDec (a : Args) : String :=
+  match a.get? "fmt", a.bytes? "in", a.bytes? "preset", a.nat? "cap" with
+  | some fmt, some inp, some preset, some cap =>
+    let presetA := preset.toArray
+    let wantReenc := a.nat? "reenc" == some 1
+    if fmt == "alone" then
+      let o := decodeAlone presetA inp cap
+      let reenc := match o, inp with
+        | .ok _ consumed parse, p :: d0 :: d1 :: d2 :: d3 :: s0 :: s1 :: s2 :: s3 :: s4 :: s5 :: s6 :: s7 :: rest =>
+          if wantReenc then
+            let dict := le32 d0 d1 d2 d3
+            let size := le32 s0 s1 s2 s3 + 2 ^ 32 * le32 s4 s5 s6 s7
+            let szOpt := if size = 2 ^ 64 - 1 then none else some size
+            let dictBuf := lzmaReaderDictBuf dict (if size ≤ 2 ^ 63 - 1 then some size else none) presetA.size
+            let presetUsed := presetA.extract (presetA.size - min presetA.size dictBuf) presetA.size
+            some (encodeParse (paramsOfProps p) dictBuf presetUsed szOpt parse == some (rest.take (consumed - 13)))
+          else none
+        | _, _ => none
+      showDecOut o reenc
+    else
+      match a.nat? "lc", a.nat? "lp", a.nat? "pb", a.nat? "dict" with
+      | some lc, some lp, some pb, some dict =>
+        let size := a.nat? "size"
+        let pr : Params := { lc, lp, pb }
+        let dictBuf := lzmaReaderDictBuf dict size presetA.size
+        let o := decodeRaw pr dictBuf presetA size inp cap
+        let reenc := match o with
+          | .ok _ consumed parse =>
+            if wantReenc then
+              let presetUsed := presetA.extract (presetA.size - min presetA.size dictBuf) presetA.size
+              some (encodeParse pr dictBuf presetUsed size parse == some (inp.take consumed))
+            else none
+          | _ => none
+        showDecOut o reenc
+      | _, _, _, _ => "bad-op"
+  | _, _, _, _ => "bad-op"
+
+/-- `lzma2.dec dict= preset=<hex> in=<hex> cap=<n> reenc=<0|1> [chunks=1]`
+answer: `ok <len> <fnv> <consumed> <reenc> [<control bytes>]` -/
+def handleLzma2Dec (a : Args) : String :=
+  match a.nat? "dict", a.bytes? "in", a.bytes? "preset", a.nat? "cap" with
+  | some dict, some inp, some preset, some cap =>
+    match Lzma2.decode dict preset.toArray inp cap with
+    | .ok r =>
+      let reenc :=
+        if a.nat? "reenc" == some 1 then
+          (if Lzma2.reencode dict preset.toArray r.chunks == some (inp.take r.consumed) then "1" else "0")
+        else "-"
+      let extra := if a.nat? "chunks" == some 1 then " " ++ hex (r.chunks.map (·.control)) else ""
+      s!"ok {r.out.size} {fnvArr r.out} {r.consumed} {reenc}{extra}"
+    | .err e => s!"err {e.name}"
+    | .capped => "capped"
+  | _, _, _, _ => "bad-op"
+
 def handle (cmd : String) (a : Args) : String :=
   match cmd with
+  | "lzma2.dec" => handleLzma2Dec a
+  | "lzma.dec" => handleLzmaDec a
   | "lzip.encdict" => match a.nat? "d" with
       | some d => optNat (Lzip.encodeDict d)
       | none => "bad-op"
